@@ -49,6 +49,10 @@ CHECKS = {
    text="TLA+ spec InitialFlight (ClientHello part) with the suppression operator checked by TLC on its own (exact / idempotent / order preserving for all lists <=3 and all suppression sets): the wire's quic_transport_parameters equal the spec list after suppression, in order or as a multiset when randomised; the identifier list the spec reports equals the canonicalised wire; the per-dial shuffle reaches every permutation of small lists with position frequencies within 7 sigma of uniform. TLC enumerates parameter lists (standard / raw / GREASE / GREASE-shaped raw, duplicates) x suppression sets x randomisation; real dials into a silent socket, ClientHello reassembled from the decrypted flight by the independent observer; validated by TLC.",
    note="Trusted: TLC, the independent observer. NOT covered in this round: equality of cipher suites / extension contents with a second uTLS instance, and the reference fingerprinter's identifiers (stability / recorded values) - stated as residue in DESIGN.md.",
    technique="TLA+ (TLC) enumeration of parameter lists + real dials observed on the wire + TLC trace validation incl. a distributional post-condition"),
+ "C20": dict(engine="Congestion", design="5 C20",
+   text="TLA+ spec Congestion: one action per call of the congestion controller carrying the observed window; the clauses (window between 2 packets and maximum + 1 packet, shrinks only on loss / RTO / migration and at most once per window of packets, never on an acknowledgement, grows only while window-limited, CanSend / SendMode release new data only below the window, every pacing budget within the token bucket min(burst, left over + 1.25 x bandwidth x elapsed)) are invariants. TLC checks them on a reference sender (abstract Reno, every ack / loss order, MTU increase, RTO, migration) and checks on PacerBucket that the per-call bucket bound implies the any-interval bound. TLC enumerates every 3-event history after three preludes (fresh / floor / congestion avoidance) for Reno and CUBIC and several datagram sizes; seeded walks add bursts, app-limited periods, clocks stepping back and to 2^61, RTT samples from 1 ns to 10 s; a scripted history reaches the 10000-packet maximum in congestion avoidance (25M acks). A second tier records the controller's calls as made by the real sentPacketHandler and its SendMode. All traces validated by TLC.",
+   note="Trusted: TLC, harness bookkeeping of bytes in flight in the component tier (the handler tier uses the handler's own), exact big-integer pre-computation of the two pacer products (TLC integers are 32 bit; saturating at 2^29 = no claim). HyStart's exit decision and PTO arithmetic are left open. Two defects found and fixed (5e969a6, 25a4f5e).",
+   technique="TLA+ model checking (TLC) + TLC-enumerated / seeded histories replayed into the real code at two tiers + TLC trace validation"),
 }
 NA = {}
 
